@@ -149,7 +149,7 @@ def runner_run(ctx, nc, nd):
                 res_ok = getattr(fl, 'result_term', None) is ils.lx[ok_]
             R = T.app('eff', mk_comp(fl.n, fl.var, fl.result_term), S('loop%d' % fl.uid)) if getattr(fl, 'result_term', None) is not None else None
             k2 = S('k#v')
-            exp = T.app('stack', AX(0), mk_comp(T.app('len', R), k2, index_term(R, k2))) if R is not None else None
+            exp = T.app('stack', AX(0), mk_comp(seq_len(R), k2, index_term(R, k2))) if R is not None else None
             found = assume_ok(ev.ret_term)
             ctx.check('C09.collect.runner_run', A, 'collect', inplace and res_ok and exp is not None and found is exp,
                       expected='results of run_chain(chain_c, n_collect, n_discard) for c = 0..n_chains in chain order, stacked on axis 0; chains stepped in place through chains_mut()',
